@@ -94,7 +94,12 @@ def _dispatch_job(job):
                 sock.add_receive_handler(h)
             for k, d in enumerate(seq):
                 w.net.send(PEER, CLIENT, d + bytes([k]))
-            w.run_until(w.now() + 0.5)
+            try:
+                w.run_until(w.now() + 0.5)
+            except Exception as ex:  # noqa  - the real thread would have died here
+                bad = ("engine-died", f"handlers {[h.name for h in hs]} raiser {raiser} datagrams {[bytes(s) for s in seq]}: "
+                                      f"{ex!r} escaped the engine loop")
+                break
             # expected: first registered accepting handler (a handler raising in can_handle aborts that datagram)
             exp = []
             for k, d in enumerate(seq):
